@@ -130,6 +130,15 @@ where
                 Ok(b) if serde_json::to_string(&b).unwrap() == s => {}
                 _ => return fail((format!("json-roundtrip:{}", $name), format!("{} does not survive serde_json", $name))),
             }
+            // the other ways a JSON document reaches the type: an owned Value, a reader (a key file), a byte slice
+            let via_value = serde_json::to_value($v).ok().and_then(|val| serde_json::from_value::<$ty>(val).ok()).map(|b| serde_json::to_string(&b).unwrap());
+            let via_reader = serde_json::from_reader::<_, $ty>(std::io::Cursor::new(s.as_bytes().to_vec())).ok().map(|b| serde_json::to_string(&b).unwrap());
+            let via_slice = serde_json::from_slice::<$ty>(s.as_bytes()).ok().map(|b| serde_json::to_string(&b).unwrap());
+            for (how, got) in [("from_value", via_value), ("from_reader", via_reader), ("from_slice", via_slice)] {
+                if got.as_deref() != Some(s.as_str()) {
+                    return fail((format!("json-roundtrip:{}:{}", $name, how), format!("{} written by serde_json is not read back by serde_json::{}", $name, how)));
+                }
+            }
         };
     }
     js!("pk", CL03PublicKey, &pk);
@@ -363,7 +372,7 @@ pub fn run(ctx: &Ctx, rep: &Report) -> Meta {
     Meta {
         rule: "fresh KeyPair::<CL03<CL1024>>::generate() keys (128 quick / 640 thorough; one CL2048 key in thorough), keys assembled from pre-computed safe primes for CL1024 / CL2048 / CL3072, Bases::generate (1..8, and every count 9..=70 quick / 9..=200 thorough), commitment keys with as many bases over the issuer modulus, and over an own modulus (factors through hook H2, 1..5 and 17 / 18 / 19 bases); \
                oracle (own Miller-Rabin with 40 fixed bases + GMP, own Jacobi symbol and gcd): N = p q, p != q, p, q, (p-1)/2, (q-1)/2 prime, |p| = |q| = SECPARAM + 1 bits; b, c, a_i, h, g_i in (1, N), coprime to N, squares modulo p and q, pairwise distinct; h generates QR_N; \
-               byte round trips of pk, sk, signature and JSON round trips of pk, sk, key pair, commitment key, bases, signature; commitment randomness of exactly ln bits; random_bits(n) of exactly n bits, rand_int(a, b) in [a, b] reaching both ends on tiny ranges, random_number(n) < n, random_prime(n) prime of n bits, random_qr a residue; \
+               byte round trips of pk, sk, signature and JSON round trips of pk, sk, key pair, commitment key, bases, signature (read back with from_str, from_value, from_reader, from_slice); commitment randomness of exactly ln bits; random_bits(n) of exactly n bits, rand_int(a, b) in [a, b] reaching both ends on tiny ranges, random_number(n) < n, random_prime(n) prime of n bits, random_qr a residue; \
                non-trivial = every generated key / parameter set / random-helper case; evaluations = judgements"
             .into(),
         assumptions: vec!["primality is probabilistic on both sides (error far below 2^-60)".into(), "CL2048 / CL3072 generate() is sampled at most once (cost: minutes)".into()],
